@@ -38,6 +38,17 @@ PROPS = {
         timeout_is_violation=True,
         **SIM,
     ),
+    "C19": dict(
+        level="exploration",
+        technique="simulation-based property testing: libcoap client and server (GnuTLS PSK, DTLS and TLS) on a virtual network with GnuTLS on the virtual clock; generated credential relations, requests queued before the handshake, datagram faults and injected cleartext; handler / NACK / event logs and a cleartext-marker scan of every byte on the wire as oracle",
+        level_text="Generated near-miss keys (one bit, prefix, extension, other length), unknown identities and SNI names, refusing hint callback, 0..5 queued CON/NON requests, loss / duplication / delay of handshake datagrams, cleartext CoAP injected before and after the handshake from the client's address and from a stranger.",
+        level_note="Trusted base: sim/sim.cc, sim/tls.cc (GnuTLS time sources), GnuTLS itself (the handshake is GnuTLS's; the check is about what libcoap does around it). PKI and RPK credentials are not generated. With faults the delivery clause is weakened to 'never twice, order kept, every CON concluded'.",
+        quick=rc(12, 4000),
+        thorough=rc(14, 60000),
+        wraps=SIM_WRAPS,
+        extra_sources=["sim/sim.cc", "sim/tls.cc"],
+        case_timeout=30,
+    ),
     "C17": dict(
         level="exploration",
         technique="crash-point fault injection with a model-based restart oracle: the generated history runs in a forked child whose stdio / rename / remove calls made by the persistence code are counted (ld --wrap) and which _exit()s before or after the k-th call; a fresh server is restarted on the files and compared with the model's state before / after the interrupted operation; enumerated over every k of a catalogue, generated over histories and crash points",
